@@ -20,6 +20,17 @@ CLAIMS = {
     },
 }
 
+CLAIMS["C17"] = {
+    "text": "Static necessary conditions of C17 decided on MIR for every path: dispose reaches tcsetattr(tty, saved termios) on every normal "
+            "return and Drop calls it; the saved termios is written once from tcgetattr and never mutated; the closing sequence contains the "
+            "cursor/mouse resets with the DeviceAttrs sync last followed by a poll; the waker performs one raw non-empty write with "
+            "EINTR/EAGAIN coalesced to Ok and poll queues Wake whenever the pipe returned bytes; all registered signals are handled; one "
+            "loop iteration evaluates all four readiness handlers. Bounded-time delivery, cross-thread order and abnormal termination "
+            "are not decided (schedules/crash points are not static objects).",
+    "technique": "MIR CFG rules: must-pass-through (post-dominance), who-writes/borrows, constant-table and switch-table checks",
+    "design_ref": "DESIGN.md §5 C17",
+}
+
 NOT_APPLICABLE = {
     "C12": "sixel pixel-exact decoding, run-length and band assembly are value computations over image data; no clause visible in the shape of the code decides them (DESIGN §5 C12)",
     "C13": "palette optimality, nearest-colour exactness and losslessness are numerical results over all images/palettes; static analysis in reach cannot bound them (DESIGN §5 C13)",
